@@ -90,7 +90,9 @@ def readEntriesF (B : Nat) : Nat → RState → List Bytes × Bool
     | none => ([], false)
     | some (len, s') =>
       let r := readFull B len s' len
-      if r.1.length < len then ([], false) else
+      -- io.ReadFull: nothing at all read (io.EOF) ends the loop WITHOUT an error: a tail that is only a
+      -- length header is silently dropped; a partly present content is io.ErrUnexpectedEOF: an error
+      if r.1.length < len then (if r.1 = [] then ([], true) else ([], false)) else
       let t := readEntriesF B fuel r.2
       (r.1 :: t.1, t.2)
 
